@@ -95,6 +95,9 @@ func runC01(c *Ctx) []Obligation {
 		c.edgeMust(P, "write.live-entries-are-set", S+"Write", `^nonnil\(`+ent+`\.value\)$`, true, `^invoke store/types\.KVStore\.Set\(store\.parent, `, 1, "every dirty live entry is written to the parent"),
 		c.edgeMust(P, "write.dirty-entries-are-collected", S+"Write", `^next\(range\(store\.cache\)\)#2\.dirty$`, true, `^builtin\.append\(phi:keys, \[next\(range\(store\.cache\)\)#1\]\)`, 1, "every dirty entry's key is collected for the flush"),
 		c.edgeMust(P, "setCacheValue.dirty-keys-await-merge", S+"setCacheValue", `^dirty$`, true, `mapset:^store\.unsortedCache\[conv<string>\(key\)\] = `, 1, "a dirty write is queued for the next sorted merge"),
+		c.edgeMust(P, "skipdeletes.unbounded-skips-every-delete", "(*store/cachekv.cacheMergeIterator).skipCacheDeletes", `^nonnil\(until\)$`, false, `^invoke store/types\.Iterator\.Next\(iter\.cache\)`, 1, "without a bound every pending delete marker is skipped"),
+		c.edgeMust(P, "skipdeletes.bounded-skips-below-bound", "(*store/cachekv.cacheMergeIterator).skipCacheDeletes", `^lt\(\(\*store/cachekv\.cacheMergeIterator\)\.compare\(iter, invoke store/types\.Iterator\.Key\(iter\.cache\), until\), 0\)$`, true, `^invoke store/types\.Iterator\.Next\(iter\.cache\)`, 1, "a delete marker below the bound is skipped"),
+		c.edgeMust(P, "skip.delete-marker-is-consumed", "(*store/cachekv.cacheMergeIterator).skipUntilExistsOrInvalid", `^nonnil\(invoke store/types\.Iterator\.Value\(iter\.cache\)\)$`, false, `^invoke store/types\.Iterator\.Next\(iter\.cache\) || ^\(\*store/cachekv\.cacheMergeIterator\)\.skipCacheDeletes\(iter, invoke store/types\.Iterator\.Key\(iter\.parent\)\)`, 2, "wherever the current pending entry is a delete marker it is consumed before the loop goes round (otherwise the loop never ends or the marker surfaces)"),
 	)
 	// ---- merge iterator
 	pV, cV := `^invoke store/types\.Iterator\.Valid\(iter\.parent\)$`, `^invoke store/types\.Iterator\.Valid\(iter\.cache\)$`
@@ -138,6 +141,11 @@ func runC01(c *Ctx) []Obligation {
 		{Prop: P, ID: "skipdeletes.only-deletes", Fn: M + "skipCacheDeletes", Assume: []Lit{T(cNil)}, Target: CallTo(cNext), TargetMustExist: true, Why: "a live pending entry is never skipped"},
 		{Prop: P, ID: "skipdeletes.only-valid", Fn: M + "skipCacheDeletes", Assume: []Lit{F(cV)}, Target: CallTo(cNext), Why: "an exhausted iterator is not advanced"},
 		{Prop: P, ID: "skipdeletes.bounded", Fn: M + "skipCacheDeletes", Assume: []Lit{T(`^nonnil\(until\)$`), F(`^lt\(\(\*store/cachekv\.cacheMergeIterator\)\.compare\(iter, invoke store/types\.Iterator\.Key\(iter\.cache\), until\), 0\)$`)}, Target: CallTo(cNext), Why: "markers at or beyond the bound are kept"},
+		{Prop: P, ID: "mem.next.ascending-advances", Fn: "(*store/cachekv.memIterator).Next", Assume: []Lit{T(`^mi\.ascending$`)}, Barrier: []string{`store:^mi\.items = mi\.items\[1:\]$`}, Target: TargetAnyReturn(), Why: "Next really moves on (ascending)"},
+		{Prop: P, ID: "mem.next.descending-advances", Fn: "(*store/cachekv.memIterator).Next", Assume: []Lit{F(`^mi\.ascending$`)}, Barrier: []string{`store:^mi\.items = mi\.items\[:\(builtin\.len\(mi\.items\) - 1\)\]$`}, Target: TargetAnyReturn(), Why: "Next really moves on (descending)"},
+		{Prop: P, ID: "merge.next.settles-first", Fn: M + "Next", Barrier: []string{`^\(\*store/cachekv\.cacheMergeIterator\)\.skipUntilExistsOrInvalid\(iter\)`}, Target: CallTo(`^invoke store/types\.Iterator\.`), TargetMustExist: true, Why: "pending deletes are skipped before the two sides are compared"},
+		{Prop: P, ID: "merge.key.settles-first", Fn: M + "Key", Barrier: []string{`^\(\*store/cachekv\.cacheMergeIterator\)\.skipUntilExistsOrInvalid\(iter\)`}, Target: CallTo(`^invoke store/types\.Iterator\.`), TargetMustExist: true, Why: "pending deletes are skipped before the two sides are compared"},
+		{Prop: P, ID: "merge.value.settles-first", Fn: M + "Value", Barrier: []string{`^\(\*store/cachekv\.cacheMergeIterator\)\.skipUntilExistsOrInvalid\(iter\)`}, Target: CallTo(`^invoke store/types\.Iterator\.`), TargetMustExist: true, Why: "pending deletes are skipped before the two sides are compared"},
 		// compare
 		{Prop: P, ID: "compare.ascending", Fn: M + "compare", Assume: []Lit{T(`^iter\.ascending$`)}, Target: RetNotMatch(0, `^bytes\.Compare\(a, b\)$`), Why: "ascending order is byte order"},
 		{Prop: P, ID: "compare.descending", Fn: M + "compare", Assume: []Lit{F(`^iter\.ascending$`)}, Target: RetNotMatch(0, `^\(bytes\.Compare\(a, b\) \* -1\)$`), Why: "descending order is reversed byte order"},
